@@ -3,6 +3,7 @@
 package dtls
 
 import (
+	"strings"
 	"crypto/tls"
 	"fmt"
 	"sort"
@@ -275,6 +276,11 @@ func runC02(t *testing.T, v c02Variant, mask []string, opt c02Opt) c02Case {
 		after int
 	}
 	var helds []held
+	type late struct {
+		d  vDatagram
+		at time.Duration
+	}
+	var lates []late
 	delivered := 0
 	deliver := func(d vDatagram) {
 		to := d.To
@@ -340,6 +346,11 @@ func runC02(t *testing.T, v c02Variant, mask []string, opt c02Opt) c02Case {
 				deliver(d)
 				deliver(d)
 				res.LastFault = lab.Net.now().Milliseconds()
+			case strings.HasPrefix(act, "late:"):
+				// delivered that many virtual milliseconds later (past the peer's retransmission timer)
+				ms := 1500
+				fmt.Sscanf(act, "late:%d", &ms)
+				lates = append(lates, late{d: d, at: lab.Net.now() + time.Duration(ms)*time.Millisecond})
 			default: // hold:k
 				k := 1
 				fmt.Sscanf(act, "hold:%d", &k)
@@ -358,7 +369,19 @@ func runC02(t *testing.T, v c02Variant, mask []string, opt c02Opt) c02Case {
 				}
 			}
 		}
-		if lab.bothDone() && len(helds) == 0 {
+		// late datagrams that are due
+		for i := 0; i < len(lates); {
+			if lates[i].at <= lab.Net.now() {
+				l := lates[i]
+				lates = append(lates[:i], lates[i+1:]...)
+				deliver(l.d)
+				res.LastFault = lab.Net.now().Milliseconds()
+				progressed = true
+			} else {
+				i++
+			}
+		}
+		if lab.bothDone() && len(helds) == 0 && len(lates) == 0 {
 			break
 		}
 		if progressed {
@@ -375,7 +398,16 @@ func runC02(t *testing.T, v c02Variant, mask []string, opt c02Opt) c02Case {
 		if !time.Now().Before(deadline) {
 			break
 		}
-		tm := time.NewTimer(time.Until(deadline))
+		wake := time.Until(deadline)
+		for _, l := range lates {
+			if d := l.at - lab.Net.now(); d < wake {
+				wake = d
+			}
+		}
+		if wake < 0 {
+			wake = 0
+		}
+		tm := time.NewTimer(wake)
 		select {
 		case <-lab.Net.notify:
 		case <-tm.C:
@@ -433,6 +465,32 @@ func TestVerifC02(t *testing.T) {
 				}
 				m[i] = a
 				jobs = append(jobs, job{v, m})
+			}
+		}
+	}
+	// late arrivals (after the peer's retransmission timer fired), alone and with one lost datagram
+	for _, v := range variants {
+		for i := 0; i < 6; i++ {
+			m := make([]string, i+1)
+			for j := range m {
+				m[j] = "pass"
+			}
+			m[i] = "late:1500"
+			jobs = append(jobs, job{v, m})
+			for j := 0; j < 10; j += 3 {
+				if j == i {
+					continue
+				}
+				l := i + 1
+				if j+1 > l {
+					l = j + 1
+				}
+				m2 := make([]string, l)
+				for k := range m2 {
+					m2[k] = "pass"
+				}
+				m2[i], m2[j] = "late:1500", "drop"
+				jobs = append(jobs, job{v, m2})
 			}
 		}
 	}
@@ -500,6 +558,35 @@ func TestVerifC02V13(t *testing.T) {
 				}
 				m[i] = a
 				masks = append(masks, m)
+			}
+		}
+		// a datagram that arrives after the peer's retransmission timer has fired (so the peer repeats
+		// its flight and the answer arrives twice), alone and combined with one lost datagram
+		nl, nd := 6, 12
+		if vIsThorough() {
+			nl, nd = 10, 20
+		}
+		for i := 0; i < nl; i++ {
+			m := make([]string, i+1)
+			for j := range m {
+				m[j] = "pass"
+			}
+			m[i] = "late:1500"
+			masks = append(masks, m)
+			for j := 0; j < nd; j++ {
+				if j == i {
+					continue
+				}
+				l := i + 1
+				if j+1 > l {
+					l = j + 1
+				}
+				m2 := make([]string, l)
+				for k := range m2 {
+					m2[k] = "pass"
+				}
+				m2[i], m2[j] = "late:1500", "drop"
+				masks = append(masks, m2)
 			}
 		}
 		n := 30
